@@ -27,7 +27,8 @@ ASSUMPTIONS = ['Fraction arithmetic is exact; returned mpf/mpc values are read f
                'sqrt(tol) by more than this allowance are violations, the band in between is undecided',
                'mnewton envelope ("nearby"): |x0-r| in [2^-8, 0.3], all other roots of the polynomial at distance >= 2 from r',
                'polyroots residual predicate: |p(z_i)| <= e(|p\'(z_i)| + e*B2) + 8(deg+1) 2^-(p+extraprec) sum|c_k||z_i|^k with '
-               'e = deg*err + 2^(1-p)|z_i| (Gershgorin factor deg, final rounding, working-precision evaluation noise)',
+               'e = deg*max(1,|z_i|)*err (Gershgorin factor deg; err is floored at 2^(1-p) by the library, which covers the final rounding of '
+               'roots of size |z_i|), last term: evaluation noise at the working precision',
                'ordering predicate asserted for real-coefficient polynomials whose planted roots are simple and >= 2^-6 apart']
 LEVEL_TEXT = ('exploration: ~1.5*10^4 (quick) / ~1.2*10^5 (thorough) generated root-finding problems run on the real code; every returned '
               'value is re-evaluated independently (exactly for polynomials), bracketing results compared with the bracket, mnewton '
@@ -861,7 +862,7 @@ def run_polyroots(mp, rec, spec):
     worst = Fr(0)
     for z in zs:
         az = cabs_up(z)
-        e = deg * E + Fr(2) ** (1 - p) * az
+        e = deg * max(1, az) * E        # err read relative to the root scale (it is floored at 2^(1-p) by the library)
         resid = cabs_up(ceval(are, aim, z))
         dabs = cabs_up(ceval(d1r, d1i, z))
         B2 = sum(cabs[i] * (deg - i) * (deg - i - 1) * (az + e) ** (deg - i - 2) for i in range(deg - 1))
